@@ -298,7 +298,7 @@ func verifAdapter(nStmts int) *adapter {
 		a.db = &sqlx.DB{}
 	} else {
 		a.db = sqlx.NewDb(sql.OpenDB(verifConnector{}), "mysql")
-		a.db.SetMaxOpenConns(1)
+		a.db.SetMaxOpenConns(4)
 	}
 	return a
 }
